@@ -56,7 +56,7 @@ pub fn panic_head(p: &PanicInfo) -> String {
 /// * single module: does the reference kind checker (kinds.rs) accept the program? If it
 ///   does, the kind system itself lets the value through (D3, D13-D15); if it does not,
 ///   the compiler skipped a check that the language requires.
-fn cause_class(prog: Option<&Program>) -> String {
+pub fn cause_class(prog: Option<&Program>) -> String {
     let Some(p) = prog else {
         return "accepted program".into();
     };
